@@ -14,7 +14,7 @@ from harness.swctext import Expect
 PID = "C16"
 TRANSLATE_ALGO = ["AlgoNode", "AlgoAssemble", "AlgoResample"]   # regenerated on every run from transforms/branch_tree.py (BranchTreeAssembler.__call__), node.py (detach), tree.py (Node.children)
 DRIVER_FILES = ["SwcVerif/Model/AlgoRunAssemble.lean", "SwcVerif/Model/AlgoRunResample.lean"]
-LEAN_MODS = ["SwcVerif.Props.C16", "SwcVerif.Props.C16Length", "SwcVerif.Props.C16Pair", "SwcVerif.Props.C16PairLoc", "SwcVerif.Props.C16Asm", "SwcVerif.Props.C16AsmGen"]
+LEAN_MODS = ["SwcVerif.Props.C16", "SwcVerif.Props.C16Length", "SwcVerif.Props.C16Pair", "SwcVerif.Props.C16PairLoc", "SwcVerif.Props.C16Asm", "SwcVerif.Props.C16AsmGen", "SwcVerif.Props.C16Gen"]
 THEOREMS = [
     "C16Asm.machine_eq_sub", "C16Asm.assemble_eq", "C16Asm.assemble_sorted", "C16Asm.assemble_wf", "C16Asm.assemble_length", "C16Asm.branch_is_chain",
     # the assembler as TRANSLATED from transforms/branch_tree.py on every run (Gen/AlgoAssemble.lean) refines the model
@@ -23,10 +23,18 @@ THEOREMS = [
     "C16.interp_endpoints", "C16.interp_on_segment", "C16.convex_between", "C16.isoResample_columns", "C16.linearResample_columns",
     "C16.smooth_endpoints_count", "C16.assemble_keeps_interior",
     "Polyline.plen_samples_le", "C16.resample_length_le", "C16.linearResample_length_le", "C16.isoResample_length_le",
+    # the branch resamplers and the smoother as TRANSLATED from transforms/branch.py on every run (Gen/AlgoResample.lean) equal the models
+    "RefineResample.linResample_refines", "RefineResample.isoResample_refines", "RefineResample.convSmooth_refines",
+    "RefineResample.interp_eq", "RefineResample.linspace0_eq", "RefineResample.arange0_eq", "RefineResample.cumsumK_cumdist", "RefineResample.convolveSame_ones",
+    "C16.generated_lin_eq_model", "C16.generated_iso_eq_model", "C16.generated_smooth_eq_model", "C16.generated_iso_step_le", "C16.generated_smooth_endpoints_count",
     "C16.pairArgmin_spec", "C16.pair_step_inv", "C16.pair_exact", "C16.pair_step_loc", "C16.pair_same_place",
 ]
 TRUSTED = ["hand-written rational models Model/Resample.lean of np.interp / linspace / arange, the two branch resamplers, the moving-average smoother and the "
            "branch re-assembly rule (tied by the c16.branch correspondence; values compared with tolerance 1e-5 because the code computes in float32/64)",
+           "imperative translator with the numpy / scipy semantics Model/PyResample.lean (cumsum, insert, concatenate, linspace, arange, interp, ceil, stack / .T / column stores, "
+           "signal.convolve(mode='same'), slice stores) for BranchLinearResampler.resample / BranchIsometricResampler.resample / BranchConvSmoother.__call__, cross-checked by the "
+           "`glin` / `giso` / `gsmooth` lines of c16.branch; its glue (harness/algo_specs/16_resample.py): the segment lengths (np.linalg.norm(..) / np.sqrt((diffs**2).sum(axis=1))) = the parameter "
+           "seglen, self.n_nodes / self.distance / self.adjust_last_gap / self.kernel = parameters, the detached branch = the dictionary of its columns (x.get_ndata(k) = ndata[k], x.number_of_nodes() = n)",
            "imperative translator (harness/translate_algo.py + Model/Py.lean, Model/PyObj.lean) for BranchTreeAssembler.__call__ / Node.detach, cross-checked by the `gasm` lines of c16.assemble; "
            "its glue (harness/algo_specs/30_assembler.py): x.soma() = row 0 (the soma type check is outside), x.branches = the dictionary parameter, the two float tests "
            "`np.linalg.norm(..) < self.EPS` = the parameters dupFirst / dupLast, the final `Tree(...)` = the two columns [n.id ..], [n.pid ..]; detach(): the one-row table = its id / pid columns"]
